@@ -160,7 +160,7 @@ func (rn *runner) runLin(id int, s LinScenario) bool {
 	server.SetPort(0)
 	server.SetCommandHandler(&gateHandler{UserCommandHandler: inner, ctl: ctl})
 	must(server.Start())
-	rn.rec.Emit(Ev{"ev": "scenario", "handler": s.Handler, "gate": s.Gate, "nconns": n})
+	rn.rec.Emit(Ev{"ev": "scenario", "handler": s.Handler, "gate": s.Gate, "nconns": n, "modelconns": []int{}})
 	ok := true
 	for i := range conns {
 		rn.rec.Emit(Ev{"ev": "open", "c": i})
